@@ -42,6 +42,9 @@ func init() {
 	vpRegister("c07", func(t *testing.T, env *vpEnv) {
 		keys, groups := vpGroup(env.cases, func(c *vpCase) string {
 			src := vpS(c.In, "source")
+			if vpB(c.In, "struct") {
+				return fmt.Sprint("struct", c.In["endpoint"], c.In["spelling"], c.In["preserve"], c.In["kind"], c.In["claim"], src == "basic")
+			}
 			return fmt.Sprint(vpJSON(c.In["flags"]), c.In["store"], src == "basic" || src == "form")
 		})
 		vpRunGroups(keys, groups, env.seed, func(rng *mrand.Rand, key string, cs []*vpCase) {
@@ -56,6 +59,32 @@ func init() {
 					"setAuthorization": vpB(fl, "saz"), "preferEmailToUser": vpB(fl, "pe"), "skipAuthStripHeaders": vpB(fl, "strip")}}
 			if vpB(fl, "pw") {
 				cfg.BasicPw = vpBasicPw
+			}
+			structured := vpB(in0, "struct")
+			if structured {
+				// one header, spelled the way the operator wrote it, in the structured option format
+				name := "X-Vp-Ident"
+				if sp := vpS(in0, "spelling"); sp != "canonical" {
+					name = vpSpell(name, sp)
+				}
+				claim := map[string]string{"user": "user", "email": "email", "groups": "groups", "pu": "preferred_username", "at": "access_token", "unknown": "no_such_claim"}[vpS(in0, "claim")]
+				h := vpHeaderCfg{Name: name, Claim: claim, Preserve: vpB(in0, "preserve")}
+				hs := []vpHeaderCfg{h}
+				switch vpS(in0, "kind") {
+				case "prefixed":
+					hs[0].Prefix = "P "
+				case "basic":
+					hs[0].BasicPw = vpBasicPw
+				case "two":
+					hs = append(hs, vpHeaderCfg{Name: name, Claim: "email", Preserve: h.Preserve})
+				}
+				cfg.Legacy = nil
+				cfg.Structured = true
+				if vpS(in0, "endpoint") == "upstream" {
+					cfg.ReqHdrs = hs
+				} else {
+					cfg.RespHdrs = hs
+				}
 			}
 			w, err := vpNewWorld(cfg)
 			if err != nil {
@@ -144,9 +173,15 @@ func init() {
 						hdr = append(hdr, [2]string{n, vpSpoof1}, [2]string{strings.ToLower(n), vpSpoof2})
 					case "comma":
 						hdr = append(hdr, [2]string{n, vpSpoof1 + "," + vpSpoof2})
+					case "canonical":
+						hdr = append(hdr, [2]string{http.CanonicalHeaderKey(n), vpSpoof1})
 					default:
 						hdr = append(hdr, [2]string{vpSpell(n, spoof), vpSpoof1})
 					}
+				}
+				if structured && ep == "authonly" && spoof != "absent" {
+					// a request header named like the configured RESPONSE header must not come back
+					hdr = append(hdr, [2]string{"X-Vp-Ident", vpSpoof1})
 				}
 				req := vpReq{Target: "/private/x?y=1", Cookie: jar.header(), Header: hdr}
 				if ep == "authonly" {
@@ -175,9 +210,17 @@ func init() {
 					if _, dup := table[b]; !dup {
 						table[b] = []string{"basic", f}
 					}
+					if structured {
+						table["Basic "+base64.StdEncoding.EncodeToString([]byte(v+":"+vpBasicPw))] = []string{"basic", f}
+						table["P "+v] = []string{"prefixed", f}
+					}
 				}
 				for _, g := range grp {
 					table[g] = []string{"plain", g}
+					if structured {
+						table["Basic "+base64.StdEncoding.EncodeToString([]byte(g+":"+vpBasicPw))] = []string{"basic", g}
+						table["P "+g] = []string{"prefixed", g}
+					}
 				}
 				project := func(hs http.Header, name string) []interface{} {
 					tags := []interface{}{}
@@ -201,13 +244,21 @@ func init() {
 					obs["served"] = r.UpHits > 0
 					if r.UpLast != nil {
 						for _, n := range names {
-							hl = append(hl, map[string]interface{}{"name": n, "tags": project(r.UpLast.Header, n)})
+							nn := n
+							if structured {
+								nn = "X-Vp-Ident"
+							}
+							hl = append(hl, map[string]interface{}{"name": nn, "tags": project(r.UpLast.Header, n)})
 						}
 					}
 				} else {
 					obs["served"] = r.Status == 202
 					for _, h := range w.opts.InjectResponseHeaders {
-						hl = append(hl, map[string]interface{}{"name": h.Name, "tags": project(r.Header, h.Name)})
+						n := h.Name
+						if structured {
+							n = "X-Vp-Ident"
+						}
+						hl = append(hl, map[string]interface{}{"name": n, "tags": project(r.Header, h.Name)})
 					}
 				}
 				obs["headers"] = hl
